@@ -80,6 +80,42 @@ def proof_events(ctx, body, rule):
     return mine, other, evs
 
 
+DESTRUCTIVE = {'zeroize', 'fill', 'fill_with', 'clear', 'truncate', 'reverse', 'swap', 'sort', 'sort_unstable', 'rotate_left', 'rotate_right', 'copy_from_slice',
+               'clone_from_slice', 'clone_from', 'drain', 'retain', 'resize', 'set_len', 'swap_with_slice', 'write_u32', 'write_u64', 'conditional_assign',
+               'conditional_negate'}
+CONVERSIONS = {'as_bytes', 'to_bytes', 'as_fixed_bytes', 'compress', 'deref', 'as_ref', 'borrow', 'clone', 'to_vec', 'to_owned', 'as_slice', 'into', 'from', 'iter',
+               'into_iter', 'as_mut', 'deref_mut', 'as_mut_slice', 'to_le_bytes', 'new'}
+
+
+def overwritten(t):
+    """names of the in-place operations that change the content of an absorbed value between the datum it is taken from and the
+    absorption (`let mut b = x.to_bytes(); b.zeroize(); append(&b)`): what the transcript then absorbs is not the datum.  Only the
+    spine from the absorbed bytes down to the datum is read (conversions, the collection an element is taken from); how the datum itself
+    was computed (`a1 += g * d`) is not the concern here.  Building a collection (push / extend) is not overwriting; a store is."""
+    out = []
+    seen = 0
+    while t is not None and seen < 40:
+        seen += 1
+        if t.tag == 'mut':
+            for ev in t[2]:
+                if ev.tag != 'ev':
+                    continue
+                if ev[1] == 'store':
+                    out.append('store')
+                elif ev[2].split('::')[-1] in DESTRUCTIVE:
+                    out.append(ev[2].split('::')[-1])
+            t = t[1]
+        elif t.tag == 'via':
+            t = t[2]
+        elif t.tag in ('elem', 'elemat'):
+            t = t[1]
+        elif t.tag == 'call' and t[1].split('::')[-1] in CONVERSIONS and len(t[2]) == 1:
+            t = t[2][0]
+        else:
+            break
+    return out
+
+
 def validated(ctx, e):
     """is the append guarded by a negative identity test of the appended point?"""
     # the test may sit in any frame of the call chain that leads to the absorption (validate_and_append_point may delegate
